@@ -10,3 +10,7 @@ chk('C18', 'proof',
     'The batched Welford update is proved to preserve the invariant (count, mean, summed_variance) = f(ghost sums S0,S1,S2) for ALL data, weights and prior states at each listed batch shape, as an exact rational-function identity; std clipping, normalize/denormalize inverse and integer-leaf passthrough are separate obligations; batching independence and weight = repetition are also proved directly.',
     'floats as exact reals (accumulator round-off not covered); listed batch shapes; population statistics from ghost sums is a paper lemma; pmap_axis_name=None',
     'contract-based deductive verification: inductive invariant over ghost state, exact rational-function normal form + z3', '7 C18')
+chk('C17', 'proof',
+    'insert_internal is proved against the whole-view FIFO contract with symbolic cursors and contents (z3) for every capacity/batch in range; Queue and UniformSamplingQueue sampling are proved for every cursor position with symbolic contents and arbitrary PRNG output; the real host-side guards are executed path-exhaustively with symbolic capacity/count; the host-counter lemma links them. Histories follow by induction over the representation invariant (paper lemma).',
+    'capacity <= 6 (quick <= 4), batch <= 4, record width 1-2; int32 cursors as mathematical integers; jax.random.randint/split assumed contracts; sharded wrappers only by a bounded stand-in (labelled bounded, one shard)',
+    'contract-based deductive verification: representation invariant + abstract view, VCs from jaxprs (z3), cursor case split, path-exhaustive execution of the real host methods', '7 C17')
